@@ -25,13 +25,15 @@ type Check struct {
 }
 
 type node struct {
-	prev  *node
-	text  string // declaration / assert
-	check *Check
-	n     int
+	prev   *node
+	text   string // declaration / assert
+	check  *Check
+	n      int
+	branch bool // an assertion that is a branch condition (part of the path condition when arms are merged)
 }
 
 type deferRec struct {
+	guard string // "" = unconditional; otherwise the condition under which the defer statement was executed
 	call *ssa.CallCommon
 	fn   Val
 	args []Val
@@ -78,12 +80,15 @@ type State struct {
 	dead    bool
 	assignsEnv *assignsCtx
 	steps   int
+	arrival int
+	known   *knownSet
+	summary *summaryCtx
 	quant   int
 	qside   [][]string // range facts of loads performed inside quantifier bodies (innermost last)
 }
 
 func (st *State) clone() *State {
-	n := &State{e: st.e, tail: st.tail, wmBase: st.wmBase, wmK: st.wmK, assignsEnv: st.assignsEnv, steps: st.steps, quant: st.quant}
+	n := &State{e: st.e, tail: st.tail, wmBase: st.wmBase, wmK: st.wmK, assignsEnv: st.assignsEnv, steps: st.steps, quant: st.quant, summary: st.summary, known: st.known}
 	n.heaps = make(map[string]string, len(st.heaps))
 	for k, v := range st.heaps {
 		n.heaps[k] = v
@@ -142,7 +147,76 @@ func (st *State) assume(t string) {
 	if st.quant > 0 {
 		return
 	}
+	st.learn(t)
 	st.emit("(assert " + t + ")")
+}
+
+// assumeBranch records a branch condition: unlike facts it distinguishes the arms of a branch when they are merged.
+func (st *State) assumeBranch(t string) {
+	if t == "true" || t == "" {
+		return
+	}
+	st.learn(t)
+	st.emit("(assert " + t + ")")
+	st.tail.branch = true
+}
+
+// knownSet: persistent set of literals asserted on this path (used to prune syntactically infeasible branches).
+type knownSet struct {
+	prev *knownSet
+	lit  string
+}
+
+func (st *State) learn(t string) {
+	if strings.HasPrefix(t, "(and ") && len(t) < 2000 {
+		for _, c := range splitSexprs(t[5 : len(t)-1]) {
+			st.learn(c)
+		}
+		return
+	}
+	if len(t) < 400 {
+		st.known = &knownSet{prev: st.known, lit: t}
+	}
+}
+
+func (st *State) knows(t string) bool {
+	n := 0
+	for k := st.known; k != nil && n < 3000; k = k.prev {
+		if k.lit == t {
+			return true
+		}
+		n++
+	}
+	return false
+}
+
+func splitSexprs(s string) []string {
+	var out []string
+	d := 0
+	start := -1
+	for i := 0; i < len(s); i++ {
+		c := s[i]
+		if c == ' ' && d == 0 {
+			if start >= 0 {
+				out = append(out, s[start:i])
+				start = -1
+			}
+			continue
+		}
+		if start < 0 {
+			start = i
+		}
+		if c == '(' {
+			d++
+		}
+		if c == ')' {
+			d--
+		}
+	}
+	if start >= 0 {
+		out = append(out, s[start:])
+	}
+	return out
 }
 
 func (st *State) addCheck(c *Check) {
